@@ -119,6 +119,9 @@ class Emit:
         self.ce = ConstEval(repo)
         self.returns = []
         self.problems = []
+        self.local_defs = {}
+        self._inline_depth = 0
+        self._break_envs = []
 
     # ---- driver -------------------------------------------------------
     def run(self):
@@ -244,9 +247,14 @@ class Emit:
             return None
         if isinstance(st, ast.Raise):
             return None
+        if isinstance(st, ast.Break) and self._break_envs:
+            self._break_envs[-1].append(env)
+            return None
         if isinstance(st, (ast.FunctionDef, ast.ClassDef)):
             env = dict(env)
             env[st.name] = UV('<def %s>' % st.name)
+            if isinstance(st, ast.FunctionDef):
+                self.local_defs[st.name] = st
             return env
         return env
 
@@ -292,7 +300,9 @@ class Emit:
                     body_env[nm], UV) else body_env[nm]
         if isinstance(st, ast.For):
             self.bind_iter(st.target, st.iter, body_env)
+        self._break_envs.append([])
         after = self.block(st.body, body_env)
+        breaks = self._break_envs.pop()
         res = dict(env)
         if after is None:
             after = body_env
@@ -310,9 +320,13 @@ class Emit:
                 res[nm] = b
             else:
                 res[nm] = mk_alt([b, a])
+        normal = res
         if getattr(st, 'orelse', None):
-            res = self.block(st.orelse, res)
-        return res
+            # the else branch runs when the loop was not left by break
+            normal = self.block(st.orelse, dict(res))
+        if breaks:
+            return self.merge(env, [normal] + breaks)
+        return normal
 
     def bind_iter(self, target, it, env):
         names = target_names(target)
@@ -335,6 +349,32 @@ class Emit:
             for nm in names:
                 env[nm] = UV(nm, {'<index>'})
             return
+        # a literal sequence of constants / of tuples of constants: each
+        # target ranges over the literals at its position
+        if isinstance(it, (ast.Tuple, ast.List)) and it.elts:
+            rows = None
+            if all(isinstance(x, ast.Constant) for x in it.elts) and \
+                    isinstance(target, ast.Name):
+                rows = [[x] for x in it.elts]
+                tnames = [target.id]
+            elif all(isinstance(x, (ast.Tuple, ast.List)) for x in it.elts) \
+                    and isinstance(target, (ast.Tuple, ast.List)) and all(
+                        isinstance(t, ast.Name) for t in target.elts) and \
+                    all(len(x.elts) == len(target.elts) for x in it.elts):
+                rows = [list(x.elts) for x in it.elts]
+                tnames = [t.id for t in target.elts]
+            if rows is not None:
+                for i, nm in enumerate(tnames):
+                    colv = [r[i] for r in rows]
+                    if all(isinstance(c, ast.Constant) and isinstance(
+                            c.value, str) for c in colv):
+                        env[nm] = mk_alt([SV((('lit', c.value),))
+                                          for c in colv])
+                    elif all(isinstance(c, ast.Constant) for c in colv):
+                        env[nm] = mk_alt([CV(c.value) for c in colv])
+                    else:
+                        env[nm] = UV(nm, {nm})
+                return
         prov = {p + '[*]' for p in self.prov(it, env)}
         self._bind_target(target, prov, env)
 
@@ -682,6 +722,28 @@ class Emit:
             if meth == 'isoformat':
                 return SV((('dyn', 'isoformat', unparse(e, 60),
                             frozenset(self.prov(e.func.value, env))),))
+        if isinstance(e.func, ast.Name) and e.func.id in self.local_defs \
+                and not e.keywords and self._inline_depth < 3:
+            fd = self.local_defs[e.func.id]
+            ps = [a.arg for a in fd.args.args]
+            if len(ps) == len(e.args) and not (
+                    fd.args.vararg or fd.args.kwarg or fd.args.kwonlyargs):
+                env2 = dict(env)
+                for p_, a_ in zip(ps, e.args):
+                    # parameters stand for the argument expressions: keep
+                    # provenance by evaluating in the caller's environment
+                    env2[p_] = self.ev(a_, env)
+                saved = (self.returns, self._ret_outs)
+                self.returns, self._ret_outs = [], ()
+                self._inline_depth += 1
+                try:
+                    self.block(fd.body, env2)
+                    rets = self.returns
+                finally:
+                    self._inline_depth -= 1
+                    self.returns, self._ret_outs = saved
+                if rets:
+                    return rets[0] if len(rets) == 1 else mk_alt(rets)
         if name in ('dumps', 'json.dumps', '_json_dumps') and e.args:
             return SV((('dyn', 'dumps', unparse(e, 60),
                         frozenset(self.prov(e.args[0], env))),))
